@@ -137,6 +137,8 @@ def handle (ts : List String) : String :=
         | "I" :: r => some (idFe, r)
         | "H" :: r => some (halfFe, r)
         | "B" :: r => some (baseFe, r)
+        | "C" :: r => some (clipFe, r)
+        | "V" :: r => some (absFe, r)
         | "E" :: r => some (echoFe, r)
         | _ => none : Option ((Wave → Wave) × List String))
       let (n, r) ← pNat r
@@ -148,6 +150,34 @@ def handle (ts : List String) : String :=
         let r := sysStep c acc.1 op
         (r.1, acc.2 ++ [outS r.2 ++ " " ++ sysS r.1])) (sysInit, [])
       "ok " ++ " | ".intercalate outs
+    | none => "bad-op"
+  | "rejF" :: r =>      -- does full_waveform raise?  (lenient parsing: any number of points, any order)
+    match (do
+      let (ns, r) ← pNat r
+      let (sigs, r) ← pMany (fun ts => do
+        let (n, ts) ← pNat ts
+        pMany pPoint n ts) ns r
+      let (n, r) ← pNat r
+      let (g, r) ← pMany pRat n r
+      if r ≠ [] then none else pure (sigs, g)) with
+    | some (sigs, g) => if fullWaveRejects sigs g then "reject" else "accept"
+    | none => "bad-op"
+  | "rejA" :: r =>      -- does all_waveforms raise?
+    match (do
+      let (ns, r) ← pNat r
+      let (sigs, r) ← pMany (fun ts => do
+        let (n, ts) ← pNat ts
+        pMany pPoint n ts) ns r
+      if r ≠ [] then none else pure sigs) with
+    | some sigs => if allWavesRejects sigs then "reject" else "accept"
+    | none => "bad-op"
+  | "rejL" :: r =>      -- does _calculate_lead_in_times raise?
+    match (do
+      let (lead, r) ← pRat r
+      let (n, r) ← pNat r
+      let (g, r) ← pMany pRat n r
+      if r ≠ [] then none else pure (lead, g)) with
+    | some (lead, g) => if leadInRejects lead g then "reject" else "accept"
     | none => "bad-op"
   | "leadin" :: r =>
     match (do
